@@ -258,24 +258,30 @@ def run(prop, seed, budget, ctx):
             wantd = {f"box{i}x{k}": {"content": a[3], "first": a[3], "repeat": [a[3], a[3]], "sameAs": True, "maybe": None}}
             if res.errors or res.data != wantd: fail("execution-differs-from-serialize", info=dict(info, cls=cname), query=q, errors=[str(e) for e in res.errors or []][:2], data=res.data, expected=wantd)
     # the resolve-info parameter anywhere among the parameters; object defaults of parameters whose fields are renamed by the aliaser
-    fam4 = ["from dataclasses import dataclass, field", "from typing import *", "import graphql", ""]
+    fam4 = ["from dataclasses import dataclass, field", "from typing import *", "import graphql", "from apischema.metadata import none_as_undefined", ""]
     n4 = 8 * budget; pos4 = []
     for i in range(n4):
         pos = i % 3; pos4.append(pos)
         params = ["a: int", "b: int = 2"]; params.insert(pos, "info: graphql.GraphQLResolveInfo" + (" = None" if pos == 2 else ""))
         fam4 += [f"def withinfo{i}({', '.join(params)}) -> int:", "    return a * 10 + b + (1000 if info.field_name else 0)", "",
                  "@dataclass", f"class Inp{i}:", "    my_field: int = 0", "    other_one: int = 1", "",
-                 f"def dflt{i}(inp: Inp{i} = Inp{i}(3), n: int = 1) -> int:", "    return inp.my_field * 10 + inp.other_one + n * 100", ""]
+                 f"def dflt{i}(inp: Inp{i} = Inp{i}(3), n: int = 1) -> int:", "    return inp.my_field * 10 + inp.other_one + n * 100", "",
+                 # a field that is None-able in Python although its declared type loses the None (none_as_undefined): nullable in the schema
+                 "@dataclass", f"class NU{i}:", "    x: Optional[int] = field(default=None, metadata=none_as_undefined)", "    y: int = 0", "",
+                 f"def nu{i}(full: bool = False) -> NU{i}:", f"    return NU{i}(3, 1) if full else NU{i}(None, 2)", ""]
     m4 = build_module(fam4, f"gqlfam4_{seed}")
     for i in range(n4):
         info = {"family4": i, "info_parameter_position": pos4[i]}
         evaluations += 1; distinct.add(("family4", i))
-        try: sch = graphql_schema(query=[getattr(m4, f"withinfo{i}"), getattr(m4, f"dflt{i}")])
+        try: sch = graphql_schema(query=[getattr(m4, f"withinfo{i}"), getattr(m4, f"dflt{i}"), getattr(m4, f"nu{i}")])
         except Exception as e:
             fail("schema-generation-raises:" + type(e).__name__, info=info, msg=str(e)[:200]); continue
         f = sch.query_type.fields[f"withinfo{i}"]
         if sorted(f.args) != ["a", "b"]: fail("argument-missing-from-the-schema", info=info, args=sorted(f.args), expected=["a", "b"])
-        for q, want in ((f"{{ withinfo{i}(a: 1, b: 5) }}", {f"withinfo{i}": 1015}), (f"{{ withinfo{i}(a: 2) }}", {f"withinfo{i}": 1022}),
+        xt = str(sch.type_map[f"NU{i}"].fields["x"].type)
+        if xt != "Int": fail("nullability-does-not-mirror-Optional", info=info, field=f"NU{i}.x (Optional[int], none_as_undefined)", got=xt, want="Int")
+        for q, want in ((f"{{ nu{i} {{ x y }} }}", {f"nu{i}": {"x": None, "y": 2}}), (f"{{ nu{i}(full: true) {{ x y }} }}", {f"nu{i}": {"x": 3, "y": 1}}),
+                        (f"{{ withinfo{i}(a: 1, b: 5) }}", {f"withinfo{i}": 1015}), (f"{{ withinfo{i}(a: 2) }}", {f"withinfo{i}": 1022}),
                         (f"{{ dflt{i} }}", {f"dflt{i}": 131}), (f"{{ dflt{i}(inp: {{myField: 4}}, n: 2) }}", {f"dflt{i}": 241})):
             evaluations += 1
             res = graphql.graphql_sync(sch, q)
